@@ -1,5 +1,6 @@
 import QuantemModel.Core.Proto
 import QuantemModel.Model.Constraints
+import QuantemModel.Model.ConstraintsExt2
 open Lean QuantemModel QuantemModel.Proto QuantemModel.Constraints
 
 /-!
@@ -104,6 +105,18 @@ def step (st : Unit) (j : Json) : Unit × Json :=
         let out := applyWeights m w ps
         pure (okJson (Json.mkObj [("probes", cxArr3J out),
                                   ("diff", floatToJson (diffIntensity out)),
+                                  ("modeint", realRowJ (out.map energy))]))
+    | "probe_hard2" =>
+        -- growth 6: {"orth":bool, "center":bool, "probes":[img]} : ProbeConstraints.apply_hard_constraints with BOTH options;
+        -- also the per-mode centre-of-mass offsets of the stack that is centred (internal stage)
+        let orth ← boolField j "orth"
+        let center ← boolField j "center"
+        let ps ← cxArr3 (← field j "probes")
+        if ps.isEmpty || !(ps.all fun p => rect p && !p.isEmpty) then throw "shape" else
+        let pre := probeApplyHard2 orth false ps
+        let out := probeApplyHard2 orth center ps
+        let sh := pre.map fun p => let s := comShift p; [s.1, s.2]
+        pure (okJson (Json.mkObj [("probes", cxArr3J out), ("shifts", realArrJ sh),
                                   ("modeint", realRowJ (out.map energy))]))
     | "probe_history" =>
         -- {"w":[bits], "stack":[img], "steps":[{"M":bits,"ramps":[img]}]}: the stack after every set_initial_probe
